@@ -9,8 +9,10 @@ from lib.core import existing_modules
 
 ID = "C19"
 LEVEL = "other"
-LEAN_MODULES = existing_modules(["Sonic.Props.C19"]) + ["Sonic.Spec.Json"]
-REQUIRED_THEOREMS = []
+LEAN_MODULES = ['Sonic.Props.C19']
+REQUIRED_THEOREMS = ["Sonic.Props.C19." + n for n in ["C19_model_eq_spec_partial", "C19_counterexample", "C19_keys_kept", "C19_undeclared_ignored",
+                                                         "C19_omitted_unchanged", "C19_provided_replaced", "C19_replaced_whole", "C19_idempotent", "C19_repeat",
+                                                         "C19_handler_refines", "C19_handler_refines_text", "C19_text_eq_spec_partial"]]
 CONFIGS = [("avx2", "prod"), ("sse", "prod"), ("avx2", "san"), ("sse", "san")]
 CONFIGS_THOROUGH = CONFIGS + [("dyn", "prod")]
 RULE = ("pairs (existing document, valid text) without duplicate keys: the text is derived from the existing value (declared keys kept / "
@@ -24,7 +26,11 @@ EXPLANATION = ("Oracle: Spec.Merge.schema (Lean, written from the statement) cha
                "SAX-handler model must agree exactly (L2). Sanitizers / the tracking ledger cover the memory clause. Theorems listed in the evidence.")
 ASSUMPTIONS = ["documents and texts have no duplicate keys (the property's hypothesis)"]
 TRUSTED = ["Spec.Merge.schema as oracle (compiled Lean evaluation)"]
-LEVEL_TEXT = "Theorems on the spec and on the functional/SAX models as listed in the evidence + spec-oracle correspondence; F12 is a known finding."
+LEVEL_TEXT = ("Machine-checked (Lean 4): the literal SAX handler machine computes the functional reading `apply` for EVERY existing document and "
+              "every valid text (C19_handler_refines_text), and `apply` equals the statement's merge on duplicate-free inputs except where an empty "
+              "text object meets a non-empty existing object (C19_model_eq_spec_partial; the exception is the known finding F12, pinned by "
+              "C19_counterexample); the clauses of the statement are proved on the spec. Level 'other' because the full statement is false on "
+              "the unchanged tree (F12).")
 LEVEL_NOTE = "Trusted: Lean kernel; standard axioms; compiled Lean evaluation; harness; sanitizers."
 TECHNIQUE = "Lean 4 spec + refinement theorems; differential correspondence against the statement-derived merge"
 
